@@ -596,6 +596,7 @@ class ViewMixin:
     OFIELDS: dict = {}        # (class, field) -> sort: opaque value (a table: list of rows) with symbolic truthiness
     VIEW: dict = {}           # contract target -> "images" | "tables" | "units"
     UNIT_SPEC: dict = {}      # contract target -> fn(ex, st, elem VExt) -> Seq term of the document tables of the element
+    UNIT_NUM: dict = {}       # contract target -> fn(ex, st, units yielded before) -> Int term: the number the yielded unit must report
 
     def field_values(self, st, obj, f, kind):
         key = (obj.sort, f)
@@ -883,6 +884,24 @@ class ViewMixin:
                                 TS = z3.SeqSort(ext_sort("__table__"))
                                 self.add_vc("ensures", "unit-tables-are-document-tables-of-the-same-element", s3.pc,
                                             z3.Or(tt == want, tt == z3.Empty(TS)), loc=self.loc(n))
+                            nspec = self.UNIT_NUM.get(self.contract.target)
+                            if nspec is not None:     # round 7: the unit reports (through its real get_metadata()) the number of its element
+                                outs = None
+                                try:
+                                    want_n = nspec(self, s3, y["cnt"])
+                                    outs = self.call_method(s3, v, "get_metadata", [], {}, n)
+                                except Unsupported:
+                                    outs = None
+                                if not outs:
+                                    s3.assume(z3.Bool(f"__havoc__@{self.loc(n)} get_metadata of the yielded unit"[:120]))
+                                    self.add_vc("ensures", "unit-number-is-the-number-of-the-same-element", s3.pc, z3.BoolVal(False), loc=self.loc(n))
+                                else:
+                                    for (s4, md) in outs:
+                                        num = None
+                                        if isinstance(md, VRef) and s4.obj(md.ref).kind == "obj" and isinstance(s4.obj(md.ref).data, dict):
+                                            num = s4.obj(md.ref).data.get("unit_number")
+                                        goal = (ops.int_term(num) == want_n) if isinstance(num, (VInt, VBool)) else z3.BoolVal(False)
+                                        self.add_vc("ensures", "unit-number-is-the-number-of-the-same-element", s4.pc, goal, loc=self.loc(n))
                             out.append((s3, NONE))
         return out
 
